@@ -497,6 +497,7 @@ func (obj *Package) Export(name string) {
 			}
 		} else {
 			vv := newUnboundVar(name)
+			vv.Pkg = obj
 			vv.Export = true
 			obj.vars[name] = vv
 		}
